@@ -45,6 +45,10 @@ type Node struct {
 	AttrUnknown bool
 	// Opaque: lower-directory views only: the overlay opaque xattr is set.
 	Opaque bool
+	// Synth: expected-lower only: a whiteout device synthesised for a ".wh.X" file (only its
+	// type and device number are fixed by the statement), as opposed to a real device entry
+	// of the tar, whose mode/owner/mtime are served like those of any other entry.
+	Synth bool
 	// Optional: expected-lower only: the statement allows this synthesised whiteout to be
 	// listed or not (its target name is itself a hidden name); listing and lookup must
 	// still agree on it.
@@ -128,7 +132,7 @@ func Diff(want, got *Node, o DiffOpts) []Difference {
 			res = append(res, Difference{p, "type", describe(w), describe(g)})
 			return
 		}
-		if w.IsWhiteout() && g.IsWhiteout() {
+		if w.Synth && w.IsWhiteout() && g.IsWhiteout() {
 			// the statement fixes type and device number of a whiteout, nothing else
 			return
 		}
